@@ -229,3 +229,157 @@ def run_thorough(pid, repo, seed=0, cap=None, jobs=None):
         'killed_samples': [(d, w) for d, v, w in results if v == 'killed'][:12],
         'undecided_samples': [(d, w) for d, v, w in results if v == 'undecided'][:12],
     }
+
+
+# ---------------------------------------------------------------------------------------------------------------------
+# second operator set (development sweeps and thorough tier): confusions a reviewer would not spot at once
+BIN_SWAP2 = {ast.Mult: ast.FloorDiv, ast.FloorDiv: ast.Mult, ast.BitOr: ast.BitAnd, ast.BitAnd: ast.BitOr,
+             ast.BitXor: ast.BitOr, ast.Add: ast.Sub}
+
+
+def _local_names(fnode):
+    names = []
+    a = fnode.args
+    for x in a.posonlyargs + a.args + a.kwonlyargs:
+        if x.arg not in ('self', 'cls'):
+            names.append(x.arg)
+    for n in ast.walk(fnode):
+        if isinstance(n, ast.Name) and isinstance(n.ctx, ast.Store) and n.id not in names:
+            names.append(n.id)
+    return names
+
+
+def mutants_v2(fi, prog=None):
+    """Yield (description, mutated module AST): boolean connective swaps, dropped `not`, swapped positional arguments,
+    variable / attribute / sibling-callee confusion, removed guard, slice bound off by one, augmented operators."""
+    mod = fi.module.tree
+    index = {id(n): i for i, n in enumerate(ast.walk(mod))}
+    parents = {}
+    for n in ast.walk(fi.node):
+        for ch in ast.iter_child_nodes(n):
+            parents[ch] = n
+
+    def clone_and(fn_edit, node, desc):
+        i = index.get(id(node))
+        if i is None:
+            return None
+        m2 = copy.deepcopy(mod)
+        n2 = list(ast.walk(m2))[i]
+        if fn_edit(n2, m2) is False:
+            return None
+        ast.fix_missing_locations(m2)
+        return ('%s:%d %s: %s' % (fi.module.relpath, getattr(node, 'lineno', 0), fi.qual[len(PKG) + 1:], desc), m2)
+
+    def replace_child(m2, old, new):
+        for par in ast.walk(m2):
+            for field, val in ast.iter_fields(par):
+                if val is old:
+                    setattr(par, field, new)
+                    return True
+                if isinstance(val, list):
+                    for j, x in enumerate(val):
+                        if x is old:
+                            val[j] = new
+                            return True
+        return False
+
+    locs = _local_names(fi.node)
+    self_attrs = []
+    for n in ast.walk(fi.node):
+        if isinstance(n, ast.Attribute) and isinstance(n.value, ast.Name) and n.value.id == 'self' and n.attr not in self_attrs:
+            self_attrs.append(n.attr)
+    if fi.cls is not None:
+        for c in fi.cls.mro():
+            for s in (c.slots or []):
+                if s not in self_attrs:
+                    self_attrs.append(s)
+    # sibling callables: functions of the same module / methods of the same class hierarchy with the same arity
+    sib_funcs = {}
+    for f2 in fi.module.functions.values() if hasattr(fi.module.functions, 'values') else []:
+        if f2.cls is None:
+            sib_funcs.setdefault(len(f2.params), []).append(f2.name)
+    sib_meths = {}
+    if fi.cls is not None:
+        for c in fi.cls.mro():
+            for nm, m in c.methods.items():
+                if not nm.startswith('__'):
+                    sib_meths.setdefault((m.kind, len(m.params)), [])
+                    if nm not in sib_meths[(m.kind, len(m.params))]:
+                        sib_meths[(m.kind, len(m.params))].append(nm)
+
+    for n in ast.walk(fi.node):
+        if isinstance(n, ast.BoolOp):
+            def ed(n2, m2):
+                n2.op = ast.Or() if isinstance(n2.op, ast.And) else ast.And()
+            yield clone_and(ed, n, 'and <-> or in %s' % ast.unparse(n)[:50])
+        if isinstance(n, ast.UnaryOp) and isinstance(n.op, ast.Not):
+            def ed(n2, m2):
+                return replace_child(m2, n2, n2.operand)
+            yield clone_and(ed, n, '`not` dropped in %s' % ast.unparse(n)[:50])
+        if isinstance(n, ast.Call) and len(n.args) >= 2 and not any(isinstance(x, ast.Starred) for x in n.args):
+            def ed(n2, m2):
+                n2.args[0], n2.args[1] = n2.args[1], n2.args[0]
+            yield clone_and(ed, n, 'first two positional arguments swapped in %s' % ast.unparse(n)[:50])
+        if isinstance(n, ast.Call) and len(n.keywords) >= 2:
+            ks = [k for k in n.keywords if k.arg]
+            for j in range(len(ks) - 1):
+                def ed(n2, m2, j=j):
+                    ks2 = [k for k in n2.keywords if k.arg]
+                    ks2[j].value, ks2[j + 1].value = ks2[j + 1].value, ks2[j].value
+                yield clone_and(ed, n, 'values of keywords %s/%s swapped in %s' % (ks[j].arg, ks[j + 1].arg, ast.unparse(n.func)))
+        if isinstance(n, ast.Name) and isinstance(n.ctx, ast.Load) and n.id in locs and len(locs) > 1:
+            i = locs.index(n.id)
+            for alt in {locs[(i + 1) % len(locs)], locs[i - 1]} - {n.id}:
+                def ed(n2, m2, alt=alt):
+                    n2.id = alt
+                yield clone_and(ed, n, 'variable %s -> %s' % (n.id, alt))
+        if isinstance(n, ast.Attribute) and isinstance(n.value, ast.Name) and n.value.id == 'self' \
+                and isinstance(n.ctx, ast.Load) and n.attr in self_attrs and len(self_attrs) > 1 \
+                and not (isinstance(parents.get(n), ast.Call) and parents[n].func is n):
+            i = self_attrs.index(n.attr)
+            for alt in {self_attrs[(i + 1) % len(self_attrs)], self_attrs[i - 1]} - {n.attr}:
+                def ed(n2, m2, alt=alt):
+                    n2.attr = alt
+                yield clone_and(ed, n, 'self.%s -> self.%s' % (n.attr, alt))
+        if isinstance(n, ast.Call) and isinstance(n.func, ast.Name):
+            for ar, names in sib_funcs.items():
+                if n.func.id in names and len(names) > 1:
+                    i = names.index(n.func.id)
+                    alt = names[(i + 1) % len(names)]
+                    def ed(n2, m2, alt=alt):
+                        n2.func.id = alt
+                    yield clone_and(ed, n, 'callee %s -> %s' % (n.func.id, alt))
+        if isinstance(n, ast.Call) and isinstance(n.func, ast.Attribute):
+            for key, names in sib_meths.items():
+                if n.func.attr in names and len(names) > 1:
+                    i = names.index(n.func.attr)
+                    alt = names[(i + 1) % len(names)]
+                    def ed(n2, m2, alt=alt):
+                        n2.func.attr = alt
+                    yield clone_and(ed, n, 'method %s -> %s' % (n.func.attr, alt))
+        if isinstance(n, ast.If) and not n.orelse and n.body and isinstance(n.body[-1], ast.Raise):
+            def ed(n2, m2):
+                return replace_child(m2, n2, ast.Pass())
+            yield clone_and(ed, n, 'guard removed: if %s: raise' % ast.unparse(n.test)[:50])
+        if isinstance(n, ast.BinOp) and type(n.op) in BIN_SWAP2:
+            sw = BIN_SWAP2[type(n.op)]
+            def ed(n2, m2, sw=sw):
+                n2.op = sw()
+            yield clone_and(ed, n, 'operator %s -> %s in %s' % (type(n.op).__name__, sw.__name__, ast.unparse(n)[:40]))
+        if isinstance(n, ast.AugAssign) and isinstance(n.op, (ast.Add, ast.Mult)):
+            sw = {ast.Add: ast.Sub, ast.Mult: ast.Add}[type(n.op)]
+            def ed(n2, m2, sw=sw):
+                n2.op = sw()
+            yield clone_and(ed, n, 'augmented operator %s -> %s in %s' % (type(n.op).__name__, sw.__name__, ast.unparse(n)[:40]))
+        if isinstance(n, ast.Subscript) and isinstance(n.slice, ast.Slice):
+            for which in ('lower', 'upper'):
+                b = getattr(n.slice, which)
+                if b is not None and not isinstance(b, ast.Constant):
+                    def ed(n2, m2, which=which):
+                        b2 = getattr(n2.slice, which)
+                        setattr(n2.slice, which, ast.BinOp(left=b2, op=ast.Add(), right=ast.Constant(value=1)))
+                    yield clone_and(ed, n, 'slice %s bound + 1 in %s' % (which, ast.unparse(n)[:40]))
+        if isinstance(n, ast.Return) and isinstance(n.value, ast.IfExp):
+            def ed(n2, m2):
+                n2.value.body, n2.value.orelse = n2.value.orelse, n2.value.body
+            yield clone_and(ed, n, 'arms of conditional expression swapped in %s' % ast.unparse(n)[:50])
